@@ -1,11 +1,11 @@
 (* C11 - Connect returns only for a reason: context, permanent error or retries exhausted.
-   Statements only; proofs in theories/ConnectProofs.v, ConnectStep.v, ConnectTop.v, ConnectClass.v.
+   Statements only; proofs in theories/ConnectProofs.v, ConnectStep.v, ConnectTop.v, ConnectClass.v, ConnectCtx.v.
    [connect_run cfg script] is the model of Connection.Connect (see props/C10.v); its second
    component is Connect's return value: None while Connect is still running when the script
    is used up, Some RNil for nil, Some RCtx for the context's error, Some (RConn reason err) for
    *ConnectionError{Reason, Err}.  The error of a stream comes from the byte-level specification
    [Whatwg.interp gosse_conn]; [stream_error], [attempt_error] are written from the property text. *)
-From GoSse Require Import Base Whatwg Backoff Connect ConnectProofs ConnectStep ConnectTop ConnectFacts ConnectClass.
+From GoSse Require Import Base Whatwg Backoff Connect ConnectProofs ConnectStep ConnectTop ConnectFacts ConnectClass ConnectCtx.
 From GoSse.Gen Require Import Params.
 
 (* Connect never returns nil - whatever the streams contain, however they end, for every script
@@ -71,6 +71,18 @@ Proof. exact run_classification. Qed.
 Theorem C11_cancelled_before :
   forall cfg script, cc_cancel_before cfg = true -> connect_run cfg script = ([], Some RCtx).
 Proof. exact run_cancel_before. Qed.
+
+(* Connect returns the context's error IF AND ONLY IF the context was done where the code observes
+   it, at the last request of the run: inside the request (Do fails with the context's error), inside
+   the body read (Read returns the context's error - after any bytes, in mid-line too), or in the select
+   of a wait that next() had granted.  (In particular a run that ends with a body-reset error did not
+   observe a cancellation.) *)
+Theorem C11_context_error_iff :
+  forall cfg script tr r,
+  cc_cancel_before cfg = false ->
+  connect_run cfg script = (tr, Some r) ->
+  (r = RCtx <-> ctx_observed cfg script (length (requests tr))).
+Proof. exact run_ctx_iff. Qed.
 
 (* ---- non-vacuity -------------------------------------------------------------------------------- *)
 Definition ex_cfg (max_retries : Z) : ccfg :=
